@@ -8,6 +8,8 @@ import (
 	"sync"
 	"syscall"
 	"time"
+
+	"github.com/mutagen-io/mutagen/pkg/verif"
 )
 
 // Stream implements io.ReadWriteCloser using the standard input and output
@@ -171,6 +173,7 @@ func (s *Stream) Close() error {
 	terminationDelay := s.terminationDelay
 	s.terminationDelayLock.Unlock()
 	waitTimer := time.NewTimer(terminationDelay)
+	verif.Yield("agentstream.close.waiting")
 	select {
 	case err := <-waitResults:
 		waitTimer.Stop()
@@ -180,6 +183,7 @@ func (s *Stream) Close() error {
 
 	// Close the process' standard input and wait up to one second for it to
 	// terminate on its own.
+	verif.Yield("agentstream.close.before-stdin-close")
 	s.standardInput.Close()
 	waitTimer.Reset(time.Second)
 	select {
@@ -192,6 +196,7 @@ func (s *Stream) Close() error {
 	// If this is a POSIX system, then send SIGTERM to the process and wait up
 	// to one second for it to terminate on its own.
 	if runtime.GOOS != "windows" {
+		verif.Yield("agentstream.close.before-sigterm")
 		s.process.Process.Signal(syscall.SIGTERM)
 		waitTimer.Reset(time.Second)
 		select {
@@ -204,6 +209,7 @@ func (s *Stream) Close() error {
 
 	// Kill the process (via SIGKILL on POSIX and TerminateProcess on Windows)
 	// and wait for it to exit.
+	verif.Yield("agentstream.close.before-kill")
 	s.process.Process.Kill()
 	return <-waitResults
 }
